@@ -23,6 +23,8 @@ LE_TYPES = {
     # no enum at all: both members of a bool/int look-alike pair in a literal that is large enough for the set branch
     "big_0_False": Literal[0, False, "a", "b", "c"], "big_1_True": Literal[1, True, 2, 3, 4], "big_all": Literal[0, 1, False, True, "x"], "small_0_False": Literal[0, False],
     # None listed next to falsy members
+    # bytes members next to a bool / 0 / 1 member (the typed strict branch) and next to enum members
+    "bytes_1": Literal[b"ab", 1], "bytes_True_x": Literal[b"ab", True, "x"], "bytes_0_enum": Literal[b"ab", 0, Col.G], "bytes_2": Literal[b"ab", 2],
     "none_0_1": Literal[0, 1, None], "none_empty": Literal["", "a", None], "none_FT": Literal[False, True, None], "none_big": Literal[None, 0, "", False, 2, "b"],
 }
 LE_RS = six_retorts()
@@ -80,9 +82,9 @@ def le_strict_lax(name, di):
 '''
 
 NAMES = ["IntEnum_and_1", "IntEnum_and_5", "IntEnum_and_0_True", "Enum_and_2", "Enum_and_x", "Enum_both", "StrEnum_and_b", "IntEnum_big", "Enum_big", "two_enums",
-         "IntEnum_only", "Enum_bytes", "big_0_False", "big_1_True", "big_all", "small_0_False", "none_0_1", "none_empty", "none_FT", "none_big"]
+         "IntEnum_only", "Enum_bytes", "big_0_False", "big_1_True", "big_all", "small_0_False", "none_0_1", "none_empty", "none_FT", "none_big", "bytes_1", "bytes_True_x", "bytes_0_enum", "bytes_2"]
 NCASES = {"IntEnum_and_1": 2, "IntEnum_and_5": 2, "IntEnum_and_0_True": 3, "Enum_and_2": 2, "Enum_and_x": 2, "Enum_both": 3, "StrEnum_and_b": 2, "IntEnum_big": 6, "Enum_big": 6,
-          "two_enums": 3, "IntEnum_only": 2, "Enum_bytes": 3, "big_0_False": 5, "big_1_True": 5, "big_all": 5, "small_0_False": 2, "none_0_1": 3, "none_empty": 3, "none_FT": 3, "none_big": 6}
+          "two_enums": 3, "IntEnum_only": 2, "Enum_bytes": 3, "big_0_False": 5, "big_1_True": 5, "big_all": 5, "small_0_False": 2, "none_0_1": 3, "none_empty": 3, "none_FT": 3, "none_big": 6, "bytes_1": 2, "bytes_True_x": 3, "bytes_0_enum": 3, "bytes_2": 2}
 
 
 def litenum_module(prop: str, tier: str) -> Module:
